@@ -1,6 +1,7 @@
 //@@ unit props=C14,C06 rlimit=1500
 // Unit xlsbfml: the [MS-XLSB] token renderer `parse_formula` of src/xlsb/mod.rs (verbatim text) under Verus.
 #![feature(allocator_api)]
+#![feature(pattern)]
 #![allow(unused_imports, dead_code, unused_variables, unused_mut, unused_assignments, unexpected_cfgs, deprecated)]
 use vstd::prelude::*;
 use std::slice::Windows;
@@ -108,6 +109,7 @@ pub uninterp spec fn display<T>(x: T) -> Seq<char>;
 // TRUSTED: Display for u16 / u32: decimal digits without sign or leading zeros; for &str / String: the text itself
 pub broadcast axiom fn axiom_display_u16(x: u16) ensures #[trigger] display::<u16>(x) == dec(x as nat);
 pub broadcast axiom fn axiom_display_u32(x: u32) ensures #[trigger] display::<u32>(x) == dec(x as nat);
+pub broadcast axiom fn axiom_display_u64(x: u64) ensures #[trigger] display::<u64>(x) == dec(x as nat);
 pub broadcast axiom fn axiom_display_str(x: &str) ensures #[trigger] display::<&str>(x) == x@;
 pub broadcast axiom fn axiom_display_string(x: String) ensures #[trigger] display::<String>(x) == x@;
 
@@ -290,50 +292,6 @@ pub open spec fn decode(rg: Seq<u8>, c: Ctx) -> Option<(Tok, int)> {
     }
 }
 
-/// number of bytes of the token at the head of rg (ptg byte included), from the token layouts of [MS-XLSB] 2.5.97 the code walks:
-/// what an arm reads or skips.  rgce is a sequence of WHOLE tokens: `rg.len() >= tok_size(rg)` is the format's own well-formedness,
-/// which parse_formula never checks (C06 finding: every read of a truncated token panics).
-pub open spec fn tok_size(rg: Seq<u8>) -> int {
-    let p = rg[0] as int;
-    let b = ptg_base(p);
-    if p >= 0x80 { 1 }
-    else if p == 0x01 { 5 }                                                         // PtgExp: row (4)
-    else if p == 0x17 { if rg.len() >= 3 { 3 + 2 * le16(rg.skip(1)) } else { 3 } } // PtgStr: cch (2), rgch
-    else if p == 0x18 { if rg.len() >= 2 { if rg[1] == 0x19 { 14 } else if rg[1] == 0x1D { 6 } else { 2 } } else { 2 } }   // PtgExtend: etpg, PtgList (12) / PtgSxName (4)
-    else if p == 0x19 { if rg.len() >= 2 { if rg[1] == 0x04 { 12 } else { 4 } } else { 2 } }     // PtgAttr*: flags (1), data (2); the code skips 10 for PtgAttrChoose
-    else if p == 0x1C || p == 0x1D { 2 }                                            // PtgErr, PtgBool
-    else if p == 0x1E { 3 }                                                         // PtgInt
-    else if p == 0x1F { 9 }                                                         // PtgNum
-    else if b == 0x20 { 15 }                                                        // PtgArray: 14 unused bytes
-    else if b == 0x21 { 3 }                                                         // PtgFunc: iftab (2)
-    else if b == 0x22 { 4 }                                                         // PtgFuncVar: cparams (1), tab (2)
-    else if b == 0x23 { 5 }                                                         // PtgName: nameindex (4)
-    else if b == 0x24 || b == 0x2A { 7 }                                            // PtgRef, PtgRefErr: RgceLoc (6)
-    else if b == 0x25 || b == 0x2B { 13 }                                           // PtgArea, PtgAreaErr: RgceArea (12)
-    else if b == 0x29 { if rg.len() >= 3 { 3 + le16(rg.skip(1)) } else { 3 } }      // PtgMemFunc: cce (2), sub-expression
-    else if b == 0x39 { 7 }                                                         // PtgNameX: ixti (2), nameindex (4)
-    else if b == 0x3A || b == 0x3C { 9 }                                            // PtgRef3d, PtgRefErr3d: ixti (2), RgceLoc (6)
-    else if b == 0x3B || b == 0x3D { 15 }                                           // PtgArea3d, PtgAreaErr3d: ixti (2), RgceArea (12)
-    else { 1 }
-}
-
-/// the fields of the token at the head of rg that the code uses as an index or in unchecked arithmetic are in range: ixti names an entry of
-/// the extern-sheet list (3-D tokens), row + 1 fits 32 bits (PtgRef / PtgArea / 3-D: [MS-XLSB] rows are < 2^20), the function index of
-/// PtgFuncVar is inside the function table, the one-based name index of PtgName is not 0.  parse_formula checks none of these.
-pub open spec fn tok_fields_ok(rg: Seq<u8>, nsheets: int) -> bool {
-    let p = rg[0] as int;
-    let b = ptg_base(p);
-    let d = rg.skip(1);
-    if p >= 0x80 { true }
-    else if b == 0x3A { le16(d) < nsheets && le32(d.skip(2)) < 0xFFFF_FFFF }
-    else if b == 0x3B { le16(d) < nsheets && le32(d.skip(2)) < 0xFFFF_FFFF && le32(d.skip(6)) < 0xFFFF_FFFF }
-    else if b == 0x3C || b == 0x3D { le16(d) < nsheets }
-    else if b == 0x24 { le32(d) < 0xFFFF_FFFF }
-    else if b == 0x25 { le32(d) < 0xFFFF_FFFF && le32(d.skip(4)) < 0xFFFF_FFFF }
-    else if b == 0x22 { le16(d.skip(1)) < crate::utils::FTAB_LEN }
-    else if b == 0x23 { le32(d) >= 1 }
-    else { true }
-}
 /// arguments in order, separated by commas
 pub open spec fn join(a: Seq<Seq<char>>) -> Seq<char> decreases a.len() {
     if a.len() == 0 { Seq::empty() } else if a.len() == 1 { a[0] } else { join(a.drop_last()) + seq![','] + a.last() }
@@ -570,9 +528,6 @@ pub open spec fn xlsb_attrsum_text(scope: bool, got: Seq<char>, want: Seq<char>)
 pub open spec fn xlsb_binary_operator_text(scope: bool, got: Seq<char>, want: Seq<char>) -> bool { scope ==> got =~= want }
 pub open spec fn xlsb_paren_text(scope: bool, got: Seq<char>, want: Seq<char>) -> bool { scope ==> got =~= want }
 pub open spec fn xlsb_ptgarea3d_text(scope: bool, got: Seq<char>, want: Seq<char>) -> bool { scope ==> got =~= want }
-pub open spec fn xlsb_ptgarea_text_absolute(scope: bool, got: Seq<char>, want: Seq<char>) -> bool { scope ==> got =~= want }
-pub open spec fn xlsb_ptgref3d_text_absolute(scope: bool, got: Seq<char>, want: Seq<char>) -> bool { scope ==> got =~= want }
-pub open spec fn xlsb_ptgarea3d_text_absolute(scope: bool, got: Seq<char>, want: Seq<char>) -> bool { scope ==> got =~= want }
 pub open spec fn xlsb_ptgarea_text(scope: bool, got: Seq<char>, want: Seq<char>) -> bool { scope ==> got =~= want }
 pub open spec fn xlsb_ptgareaerr3d_text(scope: bool, got: Seq<char>, want: Seq<char>) -> bool { scope ==> got =~= want }
 pub open spec fn xlsb_ptgareaerr_text(scope: bool, got: Seq<char>, want: Seq<char>) -> bool { scope ==> got =~= want }
@@ -587,7 +542,6 @@ pub open spec fn xlsb_ptgref_text(scope: bool, got: Seq<char>, want: Seq<char>) 
 pub open spec fn xlsb_ptgreferr3d_text(scope: bool, got: Seq<char>, want: Seq<char>) -> bool { scope ==> got =~= want }
 pub open spec fn xlsb_ptgreferr_text(scope: bool, got: Seq<char>, want: Seq<char>) -> bool { scope ==> got =~= want }
 pub open spec fn xlsb_ptgstr_text(scope: bool, got: Seq<char>, want: Seq<char>) -> bool { scope ==> got =~= want }
-pub open spec fn xlsb_ptgstr_text_without_quote(scope: bool, got: Seq<char>, want: Seq<char>) -> bool { scope ==> got =~= want }
 pub open spec fn xlsb_unary_minus_text(scope: bool, got: Seq<char>, want: Seq<char>) -> bool { scope ==> got =~= want }
 pub open spec fn xlsb_unary_plus_text(scope: bool, got: Seq<char>, want: Seq<char>) -> bool { scope ==> got =~= want }
 
@@ -607,66 +561,56 @@ proof fn lemma_dq_plain(t: Seq<char>)
 }
 
 //@@ props C14
-// ---- the reference tokens AS THE CODE RENDERS THEM (`got`, established inside parse_formula from the statements of the arm) against the
-// layouts of [MS-XLSB]; each lemma is one labelled obligation (a false one fails here, not inside the 300-line function)
-/// PtgRef (0x24 / 0x44 / 0x64): RgceLoc
+// ---- one corner of a reference AS THE CODE RENDERS IT (the statements of the PtgArea / PtgRef3d / PtgArea3d arms: flag tests on the 16-bit
+// column field, masked column, one-based row) against the layout of [MS-XLSB] 2.5.97.86 RgceLoc / 2.5.22 ColRelShort
+pub open spec fn code_cell(col: u16, rw: int) -> Seq<char> {
+    dollar(col & 0x4000 == 0) + col_name((col & 0x3FFF) as int) + dollar(col & 0x8000 == 0) + dec((rw + 1) as nat)
+}
+proof fn lemma_code_cell(col: u16, rw: int)
+    ensures code_cell(col, rw) == cell_text(rw, col as int),
+{
+    assert((col & 0x3FFF) == col % 16384) by (bit_vector);
+    assert((col & 0x4000 == 0) == ((col / 16384) % 2 == 0)) by (bit_vector);
+    assert((col & 0x8000 == 0) == ((col / 32768) % 2 == 0)) by (bit_vector);
+}
+/// PtgRef (0x24 / 0x44 / 0x64): the arm assembles the column from the two bytes and tests the flags on the high byte
 proof fn lemma_xlsb_ptgref_text(d: Seq<u8>, row: int, col: int, got: Seq<char>)
     requires
         d.len() >= 6, row == le32(d) + 1, col == d[4] as int + 256 * ((d[5] & 0x3F) as int),
         got == dollar(d[5] & 0x40 != 0x40) + col_name(col) + dollar(d[5] & 0x80 != 0x80) + dec(row as nat),
     ensures
-        xlsb_ptgref_text(xb_row_ok(le32(d)), got, xb_cell(d)),
+        got == xb_cell(d),
 {
     lemma_byte_masks();
 }
-/// PtgArea (0x25 / 0x45 / 0x65): RgceArea
 proof fn lemma_xlsb_ptgarea_text(d: Seq<u8>, got: Seq<char>)
     requires
         d.len() >= 12,
-        got == seq!['$'] + col_name(le16(d.subrange(8, 10))) + seq!['$'] + dec((le32(d.subrange(0, 4)) + 1) as nat)
-            + seq![':', '$'] + col_name(le16(d.subrange(10, 12))) + seq!['$'] + dec((le32(d.subrange(4, 8)) + 1) as nat),
+        got == code_cell(le16(d.subrange(8, 10)) as u16, le32(d.subrange(0, 4))) + seq![':'] + code_cell(le16(d.subrange(10, 12)) as u16, le32(d.subrange(4, 8))),
     ensures
-        // proved: both corners absolute
-        xlsb_ptgarea_text_absolute(xb_row_ok(le32(d)) && xb_row_ok(le32(d.skip(4))) && le16(d.skip(8)) < 16384 && le16(d.skip(10)) < 16384, got, xb_area(d)),
-        // FAILS (registered): the relative flags are ignored and not masked out of the column
-        xlsb_ptgarea_text(xb_row_ok(le32(d)) && xb_row_ok(le32(d.skip(4))), got, xb_area(d)),
+        got == xb_area(d),
 {
+    lemma_code_cell(le16(d.subrange(8, 10)) as u16, le32(d.subrange(0, 4)));
+    lemma_code_cell(le16(d.subrange(10, 12)) as u16, le32(d.subrange(4, 8)));
 }
-/// PtgRef3d (0x3A / 0x5A / 0x7A): ixti, RgceLoc
 proof fn lemma_xlsb_ptgref3d_text(sh: Seq<char>, d: Seq<u8>, got: Seq<char>)
     requires
         d.len() >= 8,
-        got == sh + seq!['!', '$'] + col_name(le16(d.subrange(6, 8))) + seq!['$'] + dec((le32(d.subrange(2, 6)) + 1) as nat),
+        got == sh + seq!['!'] + code_cell(le16(d.subrange(6, 8)) as u16, le32(d.subrange(2, 6))),
     ensures
-        // proved: absolute reference
-        xlsb_ptgref3d_text_absolute(xb_row_ok(le32(d.skip(2))) && le16(d.skip(6)) < 16384, got, sh + seq!['!'] + xb_cell(d.skip(2))),
-        // FAILS (registered): the relative flags are ignored and not masked out of the column
-        xlsb_ptgref3d_text(xb_row_ok(le32(d.skip(2))), got, sh + seq!['!'] + xb_cell(d.skip(2))),
+        got == sh + seq!['!'] + xb_cell(d.skip(2)),
 {
+    lemma_code_cell(le16(d.subrange(6, 8)) as u16, le32(d.subrange(2, 6)));
 }
-/// PtgArea3d (0x3B / 0x5B / 0x7B): ixti, RgceArea
 proof fn lemma_xlsb_ptgarea3d_text(sh: Seq<char>, d: Seq<u8>, got: Seq<char>)
     requires
         d.len() >= 14,
-        got == sh + seq!['!', '$'] + col_name(le16(d.subrange(10, 12))) + seq!['$'] + dec((le32(d.subrange(2, 6)) + 1) as nat)
-            + seq![':', '$'] + col_name(le16(d.subrange(12, 14))) + seq!['$'] + dec((le32(d.subrange(6, 10)) + 1) as nat),
+        got == sh + seq!['!'] + code_cell(le16(d.subrange(10, 12)) as u16, le32(d.subrange(2, 6))) + seq![':'] + code_cell(le16(d.subrange(12, 14)) as u16, le32(d.subrange(6, 10))),
     ensures
-        // proved: both corners absolute
-        xlsb_ptgarea3d_text_absolute(xb_row_ok(le32(d.skip(2))) && xb_row_ok(le32(d.skip(6))) && le16(d.skip(10)) < 16384 && le16(d.skip(12)) < 16384, got, sh + seq!['!'] + xb_area(d.skip(2))),
-        // FAILS (registered): the relative flags are ignored and not masked out of the column
-        xlsb_ptgarea3d_text(xb_row_ok(le32(d.skip(2))) && xb_row_ok(le32(d.skip(6))), got, sh + seq!['!'] + xb_area(d.skip(2))),
+        got == sh + seq!['!'] + xb_area(d.skip(2)),
 {
-}
-/// PtgStr (0x17): the characters between double quotes
-proof fn lemma_xlsb_ptgstr_text(chars: Seq<char>, got: Seq<char>, f: Seq<char>)
-    requires got == f + seq!['"'] + chars + seq!['"'],
-    ensures
-        // proved: no double quote inside
-        xlsb_ptgstr_text_without_quote(!has_quote(chars), got, f + quoted(chars)),
-        // FAILS (registered): an embedded double quote is not doubled
-        xlsb_ptgstr_text(true, got, f + quoted(chars)),
-{
-    lemma_dq_plain(chars);
+    lemma_code_cell(le16(d.subrange(10, 12)) as u16, le32(d.subrange(2, 6)));
+    lemma_code_cell(le16(d.subrange(12, 14)) as u16, le32(d.subrange(6, 10)));
 }
 //@@ props C14,C06
 /// (S) for an operand token: the offset of the end of the text is pushed, text is appended
@@ -742,6 +686,13 @@ proof fn lemma_bnd_shift(f: Seq<char>, start: int, b: int)
     lemma_cidx(g, kb - k0);
 }
 
+//@@ fn src/xlsb/mod.rs check_len props=C06 ret=r r4
+//@@ sig
+    ensures
+        //# C06.check_len_rejects_short
+        (len < min) == (r is Err),
+//@@ end
+
 pub mod m {
 use super::*;
 verus! {
@@ -749,7 +700,7 @@ verus! {
 //@@ sig
     decreases __p_rgce@.len(),
 //@@ body
-    broadcast use axiom_display_u16, axiom_display_u32;
+    broadcast use axiom_display_u16, axiom_display_u32, axiom_display_u64, axiom_replace_quote;
     let ghost ctx = mk_ctx(sheets@, names@);
 //@@ before /while !rgce\.is_empty\(\)/
     proof { lemma_sb_empty(formula@); }
@@ -761,7 +712,7 @@ verus! {
             sorted_bnds(formula@, stack@),
         decreases rgce@.len(),
 //@@ before /let ptg = rgce\[0\];/
-        broadcast use axiom_display_u16, axiom_display_u32;
+        broadcast use axiom_display_u16, axiom_display_u32, axiom_display_u64, axiom_replace_quote;
         let ghost rg_in = rgce@;
         let ghost f_in = formula@;
         let ghost st_in = stack@;
@@ -772,11 +723,6 @@ verus! {
         }
         let ghost d_in = rg_in.skip(1);
         let ghost kl = if st_in.len() > 0 { cidx(f_in, st_in.last() as int) } else { 0 };
-//@@ after /let ptg = rgce\[0\];/
-        //# C06.token_not_truncated
-        assert(rg_in.len() >= tok_size(rg_in));
-        //# C06.token_fields_in_range
-        assert(tok_fields_ok(rg_in, sheets@.len() as int));
 //@@ before /let mut args = stack\.split_off/
                     proof { lemma_sb_at(f_in, st_in, args_start as int); }
 //@@ before /for s in &mut args/
@@ -850,36 +796,33 @@ verus! {
                 assert(xlsb_binary_operator_text(true, op@, binop(ptg as int)));
 //@@ before /\}\s*0x3b \| 0x5b \| 0x7b => \{/
                 proof {
-                    let t = formula@.skip(f_in.len() as int);
-                    assert(formula@ =~= f_in + t);
                     assert(stack@ =~= st_in.push(blen(f_in) as usize));
-                    lemma_S_push(f_in, st_in, t);
-                    assert(rgce@ =~= rg_in.skip(9));
                     let sh = sheets@[ixti as int]@;
-                    let got = sh + seq!['!', '$'] + col_name(le16(d_in.subrange(6, 8))) + seq!['$'] + dec((le32(d_in.subrange(2, 6)) + 1) as nat);
+                    let got = sh + seq!['!'] + code_cell(le16(d_in.subrange(6, 8)) as u16, le32(d_in.subrange(2, 6)));
                     assert(formula@ =~= f_in + got);
+                    lemma_S_push(f_in, st_in, got);
+                    assert(rgce@ =~= rg_in.skip(9));
                     lemma_xlsb_ptgref3d_text(sh, d_in, got);
-                    assert(ixti as int == le16(d_in) && (ixti < sheets@.len() ==> ctx.sheets[ixti as int] == sh));
+                    //# C14.xlsb_ptgref3d_text
+                    assert(xlsb_ptgref3d_text(le16(d_in) < ctx.sheets.len() && xb_row_ok(le32(d_in.skip(2))), formula@, f_in + (ctx.sheets[le16(d_in)] + seq!['!'] + xb_cell(d_in.skip(2)))));
                 }
 //@@ before /\}\s*0x3c \| 0x5c \| 0x7c => \{/
                 proof {
-                    let t = formula@.skip(f_in.len() as int);
-                    assert(formula@ =~= f_in + t);
                     assert(stack@ =~= st_in.push(blen(f_in) as usize));
-                    lemma_S_push(f_in, st_in, t);
-                    assert(rgce@ =~= rg_in.skip(15));
                     let sh = sheets@[ixti as int]@;
-                    let got = sh + seq!['!', '$'] + col_name(le16(d_in.subrange(10, 12))) + seq!['$'] + dec((le32(d_in.subrange(2, 6)) + 1) as nat)
-                        + seq![':', '$'] + col_name(le16(d_in.subrange(12, 14))) + seq!['$'] + dec((le32(d_in.subrange(6, 10)) + 1) as nat);
+                    let got = sh + seq!['!'] + code_cell(le16(d_in.subrange(10, 12)) as u16, le32(d_in.subrange(2, 6))) + seq![':'] + code_cell(le16(d_in.subrange(12, 14)) as u16, le32(d_in.subrange(6, 10)));
                     assert(formula@ =~= f_in + got);
+                    lemma_S_push(f_in, st_in, got);
+                    assert(rgce@ =~= rg_in.skip(15));
                     lemma_xlsb_ptgarea3d_text(sh, d_in, got);
-                    assert(ixti as int == le16(d_in) && (ixti < sheets@.len() ==> ctx.sheets[ixti as int] == sh));
+                    //# C14.xlsb_ptgarea3d_text
+                    assert(xlsb_ptgarea3d_text(le16(d_in) < ctx.sheets.len() && xb_row_ok(le32(d_in.skip(2))) && xb_row_ok(le32(d_in.skip(6))), formula@, f_in + (ctx.sheets[le16(d_in)] + seq!['!'] + xb_area(d_in.skip(2)))));
                 }
 //@@ before /\}\s*0x3d \| 0x5d \| 0x7d => \{/
                 proof {
+                    assert(stack@ =~= st_in.push(blen(f_in) as usize));
                     let t = formula@.skip(f_in.len() as int);
                     assert(formula@ =~= f_in + t);
-                    assert(stack@ =~= st_in.push(blen(f_in) as usize));
                     lemma_S_push(f_in, st_in, t);
                     assert(rgce@ =~= rg_in.skip(9));
                     //# C14.xlsb_ptgreferr3d_text
@@ -887,9 +830,9 @@ verus! {
                 }
 //@@ before /\}\s*0x01 => \{/
                 proof {
+                    assert(stack@ =~= st_in.push(blen(f_in) as usize));
                     let t = formula@.skip(f_in.len() as int);
                     assert(formula@ =~= f_in + t);
-                    assert(stack@ =~= st_in.push(blen(f_in) as usize));
                     lemma_S_push(f_in, st_in, t);
                     assert(rgce@ =~= rg_in.skip(15));
                     //# C14.xlsb_ptgareaerr3d_text
@@ -897,9 +840,9 @@ verus! {
                 }
 //@@ before /\}\s*0x03\.\.=0x11 => \{/
                 proof {
+                    assert(stack@ =~= st_in.push(blen(f_in) as usize));
                     let t = formula@.skip(f_in.len() as int);
                     assert(formula@ =~= f_in + t);
-                    assert(stack@ =~= st_in.push(blen(f_in) as usize));
                     lemma_S_push(f_in, st_in, t);
                     assert(rgce@ =~= rg_in.skip(5));
                 }
@@ -947,9 +890,9 @@ verus! {
                 }
 //@@ before /\}\s*0x17 => \{/
                 proof {
+                    assert(stack@ =~= st_in.push(blen(f_in) as usize));
                     let t = formula@.skip(f_in.len() as int);
                     assert(formula@ =~= f_in + t);
-                    assert(stack@ =~= st_in.push(blen(f_in) as usize));
                     lemma_S_push(f_in, st_in, t);
                     assert(rgce@ =~= rg_in.skip(1));
                     //# C14.xlsb_ptgmissarg_text
@@ -957,22 +900,20 @@ verus! {
                 }
 //@@ before /\}\s*0x18 => \{/
                 proof {
+                    assert(stack@ =~= st_in.push(blen(f_in) as usize));
                     let t = formula@.skip(f_in.len() as int);
                     assert(formula@ =~= f_in + t);
-                    assert(stack@ =~= st_in.push(blen(f_in) as usize));
                     lemma_S_push(f_in, st_in, t);
                     assert(rgce@ =~= rg_in.skip(3 + 2 * le16(d_in)));
                     let by = d_in.subrange(2, 2 + 2 * le16(d_in));
-                    if !has_bom(by) {
-                        assert(formula@ =~= f_in + seq!['"'] + dec16(by) + seq!['"']);
-                        lemma_xlsb_ptgstr_text(dec16(by), formula@, f_in);
-                    }
+                    //# C14.xlsb_ptgstr_text
+                    assert(xlsb_ptgstr_text(!has_bom(by), formula@, f_in + quoted(dec16(by))));
                 }
 //@@ before /\}\s*0x19 => \{/
                 proof {
+                    assert(stack@ =~= st_in.push(blen(f_in) as usize));
                     let t = formula@.skip(f_in.len() as int);
                     assert(formula@ =~= f_in + t);
-                    assert(stack@ =~= st_in.push(blen(f_in) as usize));
                     lemma_S_push(f_in, st_in, t);
                 }
 //@@ before /\}\s*0x1C => \{/
@@ -991,9 +932,9 @@ verus! {
                 }
 //@@ before /\}\s*0x1D => \{/
                 proof {
+                    assert(stack@ =~= st_in.push(blen(f_in) as usize));
                     let t = formula@.skip(f_in.len() as int);
                     assert(formula@ =~= f_in + t);
-                    assert(stack@ =~= st_in.push(blen(f_in) as usize));
                     lemma_S_push(f_in, st_in, t);
                     assert(rgce@ =~= rg_in.skip(2));
                     //# C14.xlsb_ptgerr_text
@@ -1001,9 +942,9 @@ verus! {
                 }
 //@@ before /\}\s*0x1E => \{/
                 proof {
+                    assert(stack@ =~= st_in.push(blen(f_in) as usize));
                     let t = formula@.skip(f_in.len() as int);
                     assert(formula@ =~= f_in + t);
-                    assert(stack@ =~= st_in.push(blen(f_in) as usize));
                     lemma_S_push(f_in, st_in, t);
                     assert(rgce@ =~= rg_in.skip(2));
                     //# C14.xlsb_ptgbool_text
@@ -1011,9 +952,9 @@ verus! {
                 }
 //@@ before /\}\s*0x1F => \{/
                 proof {
+                    assert(stack@ =~= st_in.push(blen(f_in) as usize));
                     let t = formula@.skip(f_in.len() as int);
                     assert(formula@ =~= f_in + t);
-                    assert(stack@ =~= st_in.push(blen(f_in) as usize));
                     lemma_S_push(f_in, st_in, t);
                     assert(rgce@ =~= rg_in.skip(3));
                     //# C14.xlsb_ptgint_text
@@ -1021,9 +962,9 @@ verus! {
                 }
 //@@ before /\}\s*0x20 \| 0x40 \| 0x60 => \{/
                 proof {
+                    assert(stack@ =~= st_in.push(blen(f_in) as usize));
                     let t = formula@.skip(f_in.len() as int);
                     assert(formula@ =~= f_in + t);
-                    assert(stack@ =~= st_in.push(blen(f_in) as usize));
                     lemma_S_push(f_in, st_in, t);
                     assert(rgce@ =~= rg_in.skip(9));
                     //# C14.xlsb_ptgnum_text
@@ -1031,9 +972,9 @@ verus! {
                 }
 //@@ before /\}\s*0x21 \| 0x22 \| 0x41 \| 0x42 \| 0x61 \| 0x62 => \{/
                 proof {
+                    assert(stack@ =~= st_in.push(blen(f_in) as usize));
                     let t = formula@.skip(f_in.len() as int);
                     assert(formula@ =~= f_in + t);
-                    assert(stack@ =~= st_in.push(blen(f_in) as usize));
                     lemma_S_push(f_in, st_in, t);
                     assert(rgce@ =~= rg_in.skip(15));
                 }
@@ -1041,9 +982,9 @@ verus! {
                 proof { }
 //@@ before /\}\s*0x24 \| 0x44 \| 0x64 => \{/
                 proof {
+                    assert(stack@ =~= st_in.push(blen(f_in) as usize));
                     let t = formula@.skip(f_in.len() as int);
                     assert(formula@ =~= f_in + t);
-                    assert(stack@ =~= st_in.push(blen(f_in) as usize));
                     lemma_S_push(f_in, st_in, t);
                     assert(rgce@ =~= rg_in.skip(5));
                     //# C14.xlsb_ptgname_text
@@ -1051,32 +992,31 @@ verus! {
                 }
 //@@ before /\}\s*0x25 \| 0x45 \| 0x65 => \{/
                 proof {
-                    let t = formula@.skip(f_in.len() as int);
-                    assert(formula@ =~= f_in + t);
                     assert(stack@ =~= st_in.push(blen(f_in) as usize));
-                    lemma_S_push(f_in, st_in, t);
-                    assert(rgce@ =~= rg_in.skip(7));
                     let got = dollar(d_in[5] & 0x40 != 0x40) + col_name(col as int) + dollar(d_in[5] & 0x80 != 0x80) + dec(row as nat);
                     assert(formula@ =~= f_in + got);
+                    lemma_S_push(f_in, st_in, got);
+                    assert(rgce@ =~= rg_in.skip(7));
                     lemma_xlsb_ptgref_text(d_in, row as int, col as int, got);
+                    //# C14.xlsb_ptgref_text
+                    assert(xlsb_ptgref_text(xb_row_ok(le32(d_in)), formula@, f_in + xb_cell(d_in)));
                 }
 //@@ before /\}\s*0x2A \| 0x4A \| 0x6A => \{/
                 proof {
-                    let t = formula@.skip(f_in.len() as int);
-                    assert(formula@ =~= f_in + t);
                     assert(stack@ =~= st_in.push(blen(f_in) as usize));
-                    lemma_S_push(f_in, st_in, t);
-                    assert(rgce@ =~= rg_in.skip(13));
-                    let got = seq!['$'] + col_name(le16(d_in.subrange(8, 10))) + seq!['$'] + dec((le32(d_in.subrange(0, 4)) + 1) as nat)
-                        + seq![':', '$'] + col_name(le16(d_in.subrange(10, 12))) + seq!['$'] + dec((le32(d_in.subrange(4, 8)) + 1) as nat);
+                    let got = code_cell(le16(d_in.subrange(8, 10)) as u16, le32(d_in.subrange(0, 4))) + seq![':'] + code_cell(le16(d_in.subrange(10, 12)) as u16, le32(d_in.subrange(4, 8)));
                     assert(formula@ =~= f_in + got);
+                    lemma_S_push(f_in, st_in, got);
+                    assert(rgce@ =~= rg_in.skip(13));
                     lemma_xlsb_ptgarea_text(d_in, got);
+                    //# C14.xlsb_ptgarea_text
+                    assert(xlsb_ptgarea_text(xb_row_ok(le32(d_in)) && xb_row_ok(le32(d_in.skip(4))), formula@, f_in + xb_area(d_in)));
                 }
 //@@ before /\}\s*0x2B \| 0x4B \| 0x6B => \{/
                 proof {
+                    assert(stack@ =~= st_in.push(blen(f_in) as usize));
                     let t = formula@.skip(f_in.len() as int);
                     assert(formula@ =~= f_in + t);
-                    assert(stack@ =~= st_in.push(blen(f_in) as usize));
                     lemma_S_push(f_in, st_in, t);
                     assert(rgce@ =~= rg_in.skip(7));
                     //# C14.xlsb_ptgreferr_text
@@ -1084,9 +1024,9 @@ verus! {
                 }
 //@@ before /\}\s*0x29 \| 0x49 \| 0x69 => \{/
                 proof {
+                    assert(stack@ =~= st_in.push(blen(f_in) as usize));
                     let t = formula@.skip(f_in.len() as int);
                     assert(formula@ =~= f_in + t);
-                    assert(stack@ =~= st_in.push(blen(f_in) as usize));
                     lemma_S_push(f_in, st_in, t);
                     assert(rgce@ =~= rg_in.skip(13));
                     //# C14.xlsb_ptgareaerr_text
@@ -1094,17 +1034,17 @@ verus! {
                 }
 //@@ before /\}\s*0x39 \| 0x59 \| 0x79 => \{/
                 proof {
+                    assert(stack@ =~= st_in.push(blen(f_in) as usize));
                     let t = formula@.skip(f_in.len() as int);
                     assert(formula@ =~= f_in + t);
-                    assert(stack@ =~= st_in.push(blen(f_in) as usize));
                     lemma_S_push(f_in, st_in, t);
                     assert(rgce@ =~= rg_in.skip(3 + le16(d_in)));
                 }
 //@@ before /\}\s*_ => return Err\(XlsbError::Ptg\(ptg\)\)/
                 proof {
+                    assert(stack@ =~= st_in.push(blen(f_in) as usize));
                     let t = formula@.skip(f_in.len() as int);
                     assert(formula@ =~= f_in + t);
-                    assert(stack@ =~= st_in.push(blen(f_in) as usize));
                     lemma_S_push(f_in, st_in, t);
                     assert(rgce@ =~= rg_in.skip(7));
                 }
